@@ -273,6 +273,13 @@ def run_c02(ctx):
         scs = demux_scenarios(ctx, ['Demux_gen_psi_quick.cfg', 'Demux_gen_pes_quick.cfg', 'Demux_gen_early_quick.cfg'], 'dg', sample=9000)
     else:
         scs = demux_scenarios(ctx, ['Demux_gen_psi_deep.cfg', 'Demux_gen_pes_deep.cfg', 'Demux_gen_big.cfg', 'Demux_gen_early_deep.cfg'], 'dg', sample=200000)
+    # long behaviours of the same model (TLC simulation: 4 PIDs, up to 30 packets, counter wrap), with the model's delivery predictions
+    sim = [g for g in gen_tlc(ctx, 'MC_Demux', 'Demux_sim.cfg', simulate={'num': 150 if quick else 1500, 'depth': 31})
+           if g.get('quiescent') and len(g['pkts']) >= 10]
+    if len(sim) > (400 if quick else 6000):
+        step = len(sim) / float(400 if quick else 6000)
+        sim = [sim[int(i * step)] for i in range(400 if quick else 6000)]
+    scs += tag_scenarios([flatten_stream(g) for g in sim], 'ds', ctx.seed, 'demux')
     rnd = harness_gen(ctx, 'demux', 300 if quick else 15000, ctx.seed, 4)
     rnd2 = harness_gen(ctx, 'demux', 150 if quick else 5000, ctx.seed + 7777, 4, opt='earlypmt')
     for s in rnd2:
